@@ -112,3 +112,36 @@ func FuzzC08(f *testing.F) {
 		c08{}.Exec([]Ev{e})
 	})
 }
+
+// FuzzC09: the fuzzer's bytes drive the history generator of C09 (decode or create, setter calls, encodes); the
+// corpus is regenerated and judged by Trace_C09.
+func FuzzC09(f *testing.F) {
+	for i := 1; i < 12; i++ {
+		f.Add(uint8(i), []byte{}, uint16(0))
+		f.Add(uint8(i), bytes.Repeat([]byte{0x35, 0xca, 0x01, 0xfe, 0x80}, 60), uint16(0))
+	}
+	f.Fuzz(func(t *testing.T, sel uint8, in []byte, arg uint16) {
+		if len(in) > 4096 {
+			in = in[:4096]
+		}
+		i := int(sel)
+		if i%30 == 0 {
+			i++
+		}
+		c09{}.Exec(c09History(rand.New(&byteSrc{b: in}), i, "quick"))
+	})
+}
+
+// FuzzC06: the fuzzer's bytes drive a generator of program map sections and their carriage; NewPMT and ReadPMT run
+// on them; the corpus is regenerated and judged by Trace_C06.
+func FuzzC06(f *testing.F) {
+	f.Add(uint8(0), []byte{}, uint16(0))
+	f.Add(uint8(0), bytes.Repeat([]byte{0x35, 0xca, 0x01, 0xfe, 0x80}, 80), uint16(0))
+	f.Add(uint8(0), bytes.Repeat([]byte{0xff, 0x00, 0x7f}, 100), uint16(0))
+	f.Fuzz(func(t *testing.T, sel uint8, in []byte, arg uint16) {
+		if len(in) > 4096 {
+			in = in[:4096]
+		}
+		c06{}.Exec(c06FuzzHistory(rand.New(&byteSrc{b: in})))
+	})
+}
